@@ -53,6 +53,9 @@ type Job struct {
 	Raws      [][]byte          `json:"raws,omitempty"`      // spec-file-only mode: contents to embed (C13 thorough)
 	Steps     []Step            `json:"steps,omitempty"`     // history mode (C19)
 	Init      map[string]string `json:"init,omitempty"`      // history mode: initial directory content
+	// Pre: an earlier invocation run into the same output directory first (its outcome is not judged): the
+	// job proper then meets a used directory
+	Pre *Job `json:"pre,omitempty"`
 }
 
 const (
@@ -95,6 +98,13 @@ func init() { log.SetOutput(io.Discard) }
 // Run executes one job in this process.
 func Run(j *Job) (res *Result) {
 	res = &Result{ID: j.ID}
+	if j.Pre != nil {
+		pre := *j.Pre
+		pre.Pre = nil
+		pre.OutDir = j.OutDir
+		pre.Static, pre.KeepFiles, pre.Registry, pre.Impl, pre.SpecConst = false, false, false, false, false
+		Run(&pre)
+	}
 	loader := openapi3.NewSwaggerLoader()
 	var sw *openapi3.Swagger
 	func() {
